@@ -834,6 +834,9 @@ BaseTrees ==
    SmsInnerFromContent, CC(<<Raw("str", <<cA>>), Cached(SmsInnerFromContent)>>),
    Raw("str", <<cA, cB>>), Raw("buf", <<cA, cB>>), Raw("rawstr", <<cA, cB>>),
    Raw("rawbuf", <<cA, cB>>), Raw("rawbuf", <<255, cA>>), Orig(<<cA, cSC, NL, cB>>), SmsA, SmsInner,
+   \* a text leaf that really contains U+FFFD and binary leaves whose lossy text is the same: same source(),
+   \* different buffer() - they must not compare equal
+   Raw("str", <<239, 191, 189, cA>>), Raw("buf", <<255, cA>>), Raw("rawstr", <<239, 191, 189, cA>>),
    CC(<<Orig(<<cA>>), Raw("str", <<cB>>), SmsB>>),
    Replace(Orig(<<cA, cA, cSC, NL, cA>>),
            <<ReplNm(1, 2, <<cX>>, <<NameRn>>, 1), ReplNm(3, 3, <<cX, NL>>, <<>>, 1)>>),
